@@ -100,8 +100,25 @@ def run(R):
                     a0 = t["callee"]["args"][0]
                     if a0.get("k") == "param" and a0.get("name") == "RST":
                         sites.append((b["id"], t["callee"]["name"], t["span"]["line"]))
-        outside = [s for s in sites if s[0] != rec["id"]]
-        R.ob("C17-rst-pin-owner", "%s|who-drives-RST" % cfg, not outside and len(sites) == 2,
+        # a site is fine if the function it sits in can only be entered through Builder::init: init itself, or a
+        # private helper all of whose (transitive) callers are private helpers of that kind or init
+        calls = {}
+        for b in F.bodies.values():
+            for blk in b["body"]["blocks"]:
+                t = blk["term"]
+                if t["k"] == "call" and t.get("callee"):
+                    calls.setdefault(t["callee"]["def"], set()).add(b["id"])
+
+        def only_from_init(fid, seen=()):
+            if fid == rec["id"]:
+                return True
+            b = F.bodies.get(fid)
+            if b is None or fid in seen or b.get("public", True) or b["container"].get("kind") == "trait_impl":
+                return False
+            cs = calls.get(fid, set())
+            return bool(cs) and all(only_from_init(c, seen + (fid,)) for c in cs)
+        outside = [s for s in sites if not only_from_init(s[0])]
+        R.ob("C17-rst-pin-owner", "%s|who-drives-RST" % cfg, not outside and len(sites) >= 2,
              "reset pin operations: %s (expected exactly set_low and set_high in Builder::init)" % sites)
         # inventory 2: Display is only constructed by Builder::init
         ctors = []
